@@ -336,10 +336,20 @@ theorem C01_block_of_lines (cfg : Cfg) (S Rp : List Str) (hp : cfg.pos = false) 
 
 /-! ### one level of a document: keyword lines, singleton blocks and runs of repeatable blocks -/
 
+/-- a run of lines of one repeated keyword (PROCESSING, FORMATOPTION, …) and the values they carry -/
+inductive RepRun (k : Str) : List R → List J → Prop
+  | nil : RepRun k [] []
+  | cons (kvs : List (Str × AV)) (v p : J) (items : List R) (vs : List J) :
+      attrParts kvs = .ok (k, v, p) → RepRun k items vs → RepRun k (.adict kvs :: items) (v :: vs)
+
 /-- the items `composite` receives for the entries of a dictionary written in dictionary order (children already read):
-a keyword line per simple entry, one block per singleton entry, the blocks of a list entry one after the other -/
+a keyword line per simple entry, one block per singleton entry, the blocks of a list entry one after the other,
+the lines of a repeated keyword one after the other -/
 inductive EntriesOf (S Rp : List Str) : List R → Fields → Prop
   | nil : EntriesOf S Rp [] []
+  | rep (k : Str) (run : List R) (vs : List J) (items : List R) (d : Fields) :
+      vs ≠ [] → Rp.contains k = true → k ≠ s%"config" → k ≠ s%"points" → RepRun k run vs →
+      EntriesOf S Rp items d → EntriesOf S Rp (run ++ items) ((k, .list vs) :: d)
   | line (kvs : List (Str × AV)) (k : Str) (v p : J) (items : List R) (d : Fields) :
       attrParts kvs = .ok (k, v, p) → (k ≠ s%"config" ∧ k ≠ s%"points" ∧ Rp.contains k = false) →
       EntriesOf S Rp items d → EntriesOf S Rp (.adict kvs :: items) ((k, v) :: d)
@@ -383,6 +393,26 @@ theorem fold_blocks (cfg : Cfg) (S Rp : List Str) (t : Str) (hS : S.contains t =
     · simp only [List.map_cons, List.foldlM_cons, hstep, bind, Except.bind]; exact hf
     · rw [hd']; simp
 
+/-- a run of lines of one repeated keyword keeps extending the list under that keyword, in order -/
+theorem fold_rep (cfg : Cfg) (S Rp : List Str) (k : Str) (hR : Rp.contains k = true) (h1 : k ≠ s%"config") (h2 : k ≠ s%"points") :
+    (run : List R) → (vs : List J) → RepRun k run vs →
+    ∀ (st : CState) (base : Fields) (xs : List J), st.pd = none → st.d = base ++ [(k, .list xs)] → k ∉ keys base →
+    ∃ st', run.foldlM (compositeItem cfg S Rp) st = .ok st' ∧ st'.d = base ++ [(k, .list (xs ++ vs))] ∧ st'.pd = none
+  | _, _, .nil, st, base, xs, hpd, hd, _ => ⟨st, rfl, by simp [hd], hpd⟩
+  | _, _, .cons kvs v p items vs hparts hrest, st, base, xs, hpd, hd, hfresh => by
+    have hds : dataStep Rp k v st.d = .ok (base ++ [(k, .list (xs ++ [v]))]) := by
+      unfold dataStep
+      rw [if_neg h1, if_neg h2, if_pos hR]
+      simp only [appendTo, hd, lookup_append_fresh _ _ base hfresh, setKey_append_fresh _ _ _ base hfresh]
+    have hstep : compositeItem cfg S Rp st (.adict kvs) =
+        .ok { d := base ++ [(k, .list (xs ++ [v]))], pd := none, cd := comStep cfg Rp k (attrComments kvs) st.cd } := by
+      simp only [compositeItem, hparts, attrItem, hds, hpd]
+    obtain ⟨st', hf, hd', hp'⟩ := fold_rep cfg S Rp k hR h1 h2 items vs hrest
+      { d := base ++ [(k, .list (xs ++ [v]))], pd := none, cd := comStep cfg Rp k (attrComments kvs) st.cd } base (xs ++ [v]) rfl rfl hfresh
+    refine ⟨st', ?_, ?_, hp'⟩
+    · simp only [List.foldlM_cons, hstep, bind, Except.bind]; exact hf
+    · rw [hd']; simp
+
 theorem fresh_after (k : Str) (v : J) (acc d : Fields) (hfresh : ∀ kv ∈ (k, v) :: d, kv.1 ∉ keys acc)
     (hnd : (keys ((k, v) :: d)).Nodup) : ∀ kv ∈ d, kv.1 ∉ keys (acc ++ [(k, v)]) := by
   intro kv hkv
@@ -397,6 +427,29 @@ theorem fold_entries (cfg : Cfg) (S Rp : List Str) (hc : cfg.com = false) :
     ∀ (st : CState), st.pd = none → (∀ kv ∈ d, kv.1 ∉ keys st.d) → (keys d).Nodup →
     ∃ st', items.foldlM (compositeItem cfg S Rp) st = .ok st' ∧ st'.d = st.d ++ d ∧ st'.pd = none
   | _, _, .nil, st, hpd, _, _ => ⟨st, rfl, by simp, hpd⟩
+  | _, _, .rep k run vs items d hne hR h1 h2 hrun hrest, st, hpd, hfresh, hnd => by
+    have hnew : k ∉ keys st.d := hfresh (k, .list vs) (by simp)
+    cases hrun with
+    | nil => exact absurd rfl hne
+    | cons kvs v p ritems rvs hparts hrun' =>
+      have hl : lookup k st.d = none := (lookup_none_iff _ _).mpr hnew
+      have hds : dataStep Rp k v st.d = .ok (st.d ++ [(k, .list [v])]) := by
+        unfold dataStep
+        rw [if_neg h1, if_neg h2, if_pos hR]
+        simp only [appendTo, hl, setKey_of_not_mem _ _ st.d hnew]
+      have hstep : compositeItem cfg S Rp st (.adict kvs) =
+          .ok { d := st.d ++ [(k, .list [v])], pd := none, cd := comStep cfg Rp k (attrComments kvs) st.cd } := by
+        simp only [compositeItem, hparts, attrItem, hds, hpd]
+      obtain ⟨st1, hf1, hd1, hp1⟩ := fold_rep cfg S Rp k hR h1 h2 ritems rvs hrun'
+        { d := st.d ++ [(k, .list [v])], pd := none, cd := comStep cfg Rp k (attrComments kvs) st.cd } st.d [v] rfl rfl hnew
+      have hd1' : st1.d = st.d ++ [(k, .list (v :: rvs))] := by rw [hd1]; simp
+      obtain ⟨st', hf, hd, hp'⟩ := fold_entries cfg S Rp hc items d hrest st1 hp1
+        (by rw [hd1']; exact fresh_after k _ st.d d hfresh hnd)
+        (by simp only [keys_cons, List.nodup_cons] at hnd; exact hnd.2)
+      refine ⟨st', ?_, ?_, hp'⟩
+      · simp only [List.cons_append, List.foldlM_cons, hstep, bind, Except.bind, List.foldlM_append]
+        rw [hf1]; exact hf
+      · rw [hd, hd1']; simp
   | _, _, .line kvs k v p items d hparts hk hrest, st, hpd, hfresh, hnd => by
     have hds : dataStep Rp k v st.d = .ok (setKey k v st.d) := by
       unfold dataStep
